@@ -139,50 +139,7 @@ func checkC15(c *Ctx) {
 		}
 	}
 	checkDiffMergeTable(c)
-	c.rule("NONNIL-decoded-value", "a leaf value decoded from storage is never turned into nil (an empty value must replay as an empty value)", 1)
-	if mk := l.Func("", "MakeNode"); mk == nil {
-		c.anchorMissing("NONNIL-decoded-value", "MakeNode")
-	} else if fVal := l.Field("", "Node", "value"); fVal != nil {
-		var mayNil func(v ssa.Value, d int) bool
-		mayNil = func(v ssa.Value, d int) bool {
-			if d > 8 {
-				return true
-			}
-			switch x := stripTrivial(v).(type) {
-			case *ssa.Const:
-				return x.IsNil()
-			case *ssa.MakeSlice:
-				return false
-			case *ssa.Extract:
-				if call, ok := x.Tuple.(*ssa.Call); ok {
-					if f := staticCallee(&call.Call); f != nil && f.Name() == "DecodeBytes" {
-						return false // contract of the primitive (decided under C13): a fresh, non-nil slice on success
-					}
-				}
-				return true
-			case *ssa.Call:
-				if b, ok := x.Call.Value.(*ssa.Builtin); ok && b.Name() == "append" {
-					return mayNil(x.Call.Args[0], d+1)
-				}
-				return true
-			case *ssa.Slice:
-				return mayNil(x.X, d+1)
-			case *ssa.Convert:
-				return mayNil(x.X, d+1)
-			case *ssa.Phi:
-				for _, e := range x.Edges {
-					if mayNil(e, d+1) {
-						return true
-					}
-				}
-				return false
-			}
-			return true
-		}
-		for _, st := range storesToField(mk, fVal) {
-			c.decide("NONNIL-decoded-value", "MakeNode keeps a decoded (possibly empty) value non-nil", l.ipos(st), !mayNil(st.Val, 0), "the decoded slice, or a copy that cannot be nil", "the value stored into the decoded leaf is `"+roleOf(l, st.Val, "", 0)+"`, which is nil for a zero-length value: the extracted change set carries a nil value and its replay is rejected (\"attempt to store nil value\")")
-		}
-	}
+	checkDecodedValueNonNil(c)
 	c.rule("PASS-root-record", "the roots that are diffed come from the stored root records", 2)
 	checkRootRecord(c, "PASS-root-record")
 	// a rejected change set is discarded with Rollback: everything it applied must go, also the pending index removals
@@ -303,6 +260,56 @@ func checkDiffMergeTable(c *Ctx) {
 			}
 			name := map[int]string{-1: "orphaned < new", 0: "orphaned == new", 1: "orphaned > new"}[ord]
 			c.decide("TABLE-diff-merge", fmt.Sprintf("merge: %s, pending new leaves=%v", name, nonEmpty), l.pos(merge.Pos()), got == ws, got, "does `"+got+"`, the rule is `"+ws+"`")
+		}
+	}
+}
+
+// checkDecodedValueNonNil (shared by C15, C13, C10, C01): MakeNode keeps a
+// decoded zero-length value an empty, non-nil slice.
+func checkDecodedValueNonNil(c *Ctx) {
+	l := c.L
+	c.rule("NONNIL-decoded-value", "a leaf value decoded from storage is never turned into nil (an empty value must replay as an empty value)", 1)
+	if mk := l.Func("", "MakeNode"); mk == nil {
+		c.anchorMissing("NONNIL-decoded-value", "MakeNode")
+	} else if fVal := l.Field("", "Node", "value"); fVal != nil {
+		var mayNil func(v ssa.Value, d int) bool
+		mayNil = func(v ssa.Value, d int) bool {
+			if d > 8 {
+				return true
+			}
+			switch x := stripTrivial(v).(type) {
+			case *ssa.Const:
+				return x.IsNil()
+			case *ssa.MakeSlice:
+				return false
+			case *ssa.Extract:
+				if call, ok := x.Tuple.(*ssa.Call); ok {
+					if f := staticCallee(&call.Call); f != nil && f.Name() == "DecodeBytes" {
+						return false // contract of the primitive (decided under C13): a fresh, non-nil slice on success
+					}
+				}
+				return true
+			case *ssa.Call:
+				if b, ok := x.Call.Value.(*ssa.Builtin); ok && b.Name() == "append" {
+					return mayNil(x.Call.Args[0], d+1)
+				}
+				return true
+			case *ssa.Slice:
+				return mayNil(x.X, d+1)
+			case *ssa.Convert:
+				return mayNil(x.X, d+1)
+			case *ssa.Phi:
+				for _, e := range x.Edges {
+					if mayNil(e, d+1) {
+						return true
+					}
+				}
+				return false
+			}
+			return true
+		}
+		for _, st := range storesToField(mk, fVal) {
+			c.decide("NONNIL-decoded-value", "MakeNode keeps a decoded (possibly empty) value non-nil", l.ipos(st), !mayNil(st.Val, 0), "the decoded slice, or a copy that cannot be nil", "the value stored into the decoded leaf is `"+roleOf(l, st.Val, "", 0)+"`, which is nil for a zero-length value: the extracted change set carries a nil value and its replay is rejected (\"attempt to store nil value\")")
 		}
 	}
 }
